@@ -2524,13 +2524,19 @@ func (r *client) resolveSerializer(message any) remote.Serializer {
 	if msgType == nil {
 		return r.dispatcher
 	}
+	// Exact concrete type first, as documented on WithClientSerializers: an
+	// interface entry registered earlier (the default proto.Message entry always
+	// is) must not shadow a serializer registered for this very type.
 	for i := range r.serializers {
 		entry := &r.serializers[i]
-		if entry.iface.Kind() == reflect.Interface {
-			if msgType.Implements(entry.iface) {
-				return entry.serializer
-			}
-		} else if msgType == entry.iface {
+		if entry.iface.Kind() != reflect.Interface && msgType == entry.iface {
+			return entry.serializer
+		}
+	}
+	// Then the first registered interface the message implements.
+	for i := range r.serializers {
+		entry := &r.serializers[i]
+		if entry.iface.Kind() == reflect.Interface && msgType.Implements(entry.iface) {
 			return entry.serializer
 		}
 	}
